@@ -5,6 +5,7 @@ go 1.23
 require (
 	github.com/anishathalye/porcupine v1.3.0
 	github.com/bnb-chain/tss-lib/v2 v2.0.0
+	github.com/btcsuite/btcd v0.23.4
 	github.com/btcsuite/btcd/btcec/v2 v2.3.2
 	golang.org/x/crypto v0.13.0
 	google.golang.org/protobuf v1.31.0
@@ -12,7 +13,6 @@ require (
 
 require (
 	github.com/agl/ed25519 v0.0.0-20200225211852-fd4d107ace12 // indirect
-	github.com/btcsuite/btcd v0.23.4 // indirect
 	github.com/btcsuite/btcd/chaincfg/chainhash v1.0.1 // indirect
 	github.com/btcsuite/btcutil v1.0.2 // indirect
 	github.com/decred/dcrd/dcrec/edwards/v2 v2.0.3 // indirect
